@@ -286,6 +286,23 @@ func (g *Gen) block(n int, loop bool) *Block {
 	return b
 }
 
+// maybeDirectBreak sometimes ends a loop body with an unconditional break, or
+// reduces the body to a lone break (both are ordinary Lua; the compiler threads
+// the jumps differently).
+func (g *Gen) maybeDirectBreak(body *Block) {
+	switch g.R.Intn(14) {
+	case 0:
+		body.Stmts = append(body.Stmts, &SBreak{})
+		g.cover("loopbody:ends-in-break")
+	case 1:
+		body.Stmts = []Stmt{&SBreak{}}
+		g.cover("loopbody:only-break")
+	case 2:
+		body.Stmts = append([]Stmt{&SDo{Body: Blk(&SBreak{})}}, body.Stmts...)
+		g.cover("loopbody:starts-with-do-break")
+	}
+}
+
 func (g *Gen) breakStmt() Stmt {
 	// `break` must be the last statement of a block in 5.1
 	return &SIf{Conds: []Expr{g.expr(KBool, ectx{depth: 2})}, Blocks: []*Block{Blk(&SBreak{})}}
@@ -326,6 +343,12 @@ func (g *Gen) stmt() []Stmt {
 		return g.simpleStmt()
 	case r < 29:
 		if g.F.Calls {
+			switch g.R.Intn(6) {
+			case 0:
+				return g.scopeOfLocalFunctionValue()
+			case 1:
+				return g.bareIteratorFor()
+			}
 			return g.funcDecl()
 		}
 		return g.simpleStmt()
@@ -368,7 +391,12 @@ func (g *Gen) whileStmt() []Stmt {
 		cond = Bin("and", cond, Bin("or", g.expr(KBool, ectx{depth: 2}), &ETrue{}))
 	}
 	body := g.block(1+g.R.Intn(3), true)
+	g.maybeDirectBreak(body)
 	body.Stmts = append([]Stmt{Assign1(N(cn), Bin("+", N(cn), Num(1)))}, body.Stmts...)
+	if g.R.Intn(10) == 0 {
+		// a lone break as the whole body
+		body.Stmts = []Stmt{&SBreak{}}
+	}
 	return []Stmt{Local1(cn, Num(0)), &SWhile{Cond: cond, Body: body}}
 }
 
@@ -437,6 +465,7 @@ func (g *Gen) numForStmt() []Stmt {
 	}
 	g.fn.inLoop--
 	g.pop()
+	g.maybeDirectBreak(body)
 	return []Stmt{&SNumFor{Var: iv, Start: start, Limit: limit, Step: step, Body: body}}
 }
 
@@ -462,12 +491,17 @@ func (g *Gen) genForStmt() []Stmt {
 		lv.Frozen--
 		g.fn.inLoop--
 		g.pop()
+		g.maybeDirectBreak(body)
 		return append(pre, &SGenFor{Names: []string{i, v}, Exprs: []Expr{CallN("ipairs", lv.Ref())}, Body: body})
 	case 2: // pairs with bag
 		t := g.fresh("t")
 		k, v := g.fresh("k"), g.fresh("x")
 		tc := g.tableCons(ectx{depth: 1})
 		body := Blk(CallSN("bag", N(k), N(v)))
+		if g.R.Intn(6) == 0 {
+			body = Blk(&SBreak{})
+			g.cover("loopbody:pairs-only-break")
+		}
 		return []Stmt{Local1(t, tc), &SGenFor{Names: []string{k, v}, Exprs: []Expr{CallN("pairs", N(t))}, Body: body}, CallSN("bagflush")}
 	default: // stateless Lua iterator: for i, sq in function(s, c) ... end, limit, 0
 		i, v := g.fresh("i"), g.fresh("x")
@@ -485,6 +519,7 @@ func (g *Gen) genForStmt() []Stmt {
 		}
 		g.fn.inLoop--
 		g.pop()
+		g.maybeDirectBreak(body)
 		return []Stmt{&SGenFor{Names: []string{i, v}, Exprs: []Expr{iter, Num(float64(g.R.Intn(5))), Num(0)}, Body: body}}
 	}
 }
@@ -565,6 +600,50 @@ func (g *Gen) funcDecl() []Stmt {
 		g.declare(v)
 		return []Stmt{&SFunc{Target: N(v.Name), F: fl.F}}
 	}
+}
+
+// scopeOfLocalFunctionValue: `local g = function() return g end` refers to the
+// global g inside (only `local function g` sees itself).
+func (g *Gen) scopeOfLocalFunctionValue() []Stmt {
+	g.stmts++
+	name := g.fresh("GS")
+	g.cover("scope:local-x-equals-function")
+	inner := g.fresh("r")
+	return []Stmt{
+		Assign1(N(name), Str("global-"+name)),
+		&SDo{Body: Blk(
+			Local1(name, Fn(nil, false, Blk(Return(N(name))))),
+			Local1(inner, Call(N(name))),
+			CallSN("emit", Str("scope"), CallN("type", N(inner)), Bin("==", N(inner), N(name))),
+			&SLocalFunc{Name: name, F: &Func{Params: []string{"n"}, Body: Blk(
+				&SIf{Conds: []Expr{Bin("<=", N("n"), Num(0))}, Blocks: []*Block{Blk(Return(Num(0)))}},
+				Return(Bin("+", Num(1), Call(N(name), Bin("-", N("n"), Num(1))))))}},
+			CallSN("emit", Str("scope2"), Call(N(name), Num(3))),
+		)},
+	}
+}
+
+// bareIteratorFor: `for k in f do` with a single non-call expression: the state
+// and control values are nil, whatever the registers held before.
+func (g *Gen) bareIteratorFor() []Stmt {
+	g.stmts++
+	it := g.fresh("it")
+	cnt := g.fresh("n")
+	g.cover("genfor:bare-iterator")
+	names := []string{g.fresh("k")}
+	if g.R.Intn(2) == 0 {
+		names = append(names, g.fresh("x"))
+	}
+	return []Stmt{&SDo{Body: Blk(
+		Local1(cnt, Num(0)),
+		&SLocalFunc{Name: it, F: &Func{Params: []string{"s", "c"}, Body: Blk(
+			CallSN("emit", Str("itargs"), N("s"), N("c")),
+			Assign1(N(cnt), Bin("+", N(cnt), Num(1))),
+			&SIf{Conds: []Expr{Bin("<=", N(cnt), Num(2))}, Blocks: []*Block{Blk(Return(N(cnt), Bin("*", N(cnt), Num(10))))}},
+		)}},
+		&SDo{Body: Blk(&SLocal{Names: []string{g.fresh("j"), g.fresh("j"), g.fresh("j"), g.fresh("j")}, Exprs: []Expr{Num(11), Num(22), Num(33), Num(44)}})},
+		&SGenFor{Names: names, Exprs: []Expr{N(it)}, Body: Blk(CallSN("emit", Str("bare"), N(names[0])))},
+	)}}
 }
 
 // failingStmt produces a statement that raises a run-time error.
